@@ -188,6 +188,40 @@ Vals(S, t) ==
                    IN [j \in 1..Len(bv) |-> <<d.branches[i].idx, bv[j]>>]])
 
 -----------------------------------------------------------------------------
+(* Structure-aware corruptions of an encoding e with layout lay (C07):      *)
+(* every length/count field set to boundary values, every control byte      *)
+(* (message index, terminator, union discriminator) and the first byte of   *)
+(* every scalar/enum/key replaced, chunks removed or duplicated at element  *)
+(* boundaries.                                                              *)
+Starts(lay) == SelectSeq([i \in 1..Len(lay) |-> i], LAMBDA i : IsStart(lay[i]))
+RoleAt(lay, i) == RoleOf(lay[i])
+IsCount(r) == r \in {"str.len", "arr.count", "map.count", "msg.len", "union.len"}
+IsControl(r) == r \in {"msg.idx", "msg.term", "union.disc"}
+SetAt(e, i, bs) == [j \in 1..Len(e) |-> IF j >= i /\ j < i + Len(bs) THEN bs[j - i + 1] ELSE e[j]]
+CountVals(e, i) ==
+  LET n == U32(e, i - 1) IN
+  << <<0,0,0,0>>, <<1,0,0,0>>, <<0,0,16,0>>, <<0,0,0,128>>, <<255,255,255,255>>, <<255,255,255,127>> >>
+  \o (IF n < 1000000 THEN << LE32(n + 1) >> ELSE <<>>)
+  \o (IF n > 0 /\ n < 1000000 THEN << LE32(n - 1) >> ELSE <<>>)
+ByteVals(b) == SelectSeq(<<0, 1, 2, 127, 128, 255, (b + 1) % 256>>, LAMBDA x : x # b)
+
+Mutations(e, lay) ==
+  LET st == Starts(lay)
+      counts == SelectSeq(st, LAMBDA i : IsCount(RoleAt(lay, i)))
+      ctrls == SelectSeq(st, LAMBDA i : ~IsCount(RoleAt(lay, i)) /\ RoleAt(lay, i) # "str.body")
+      cm == FlattenSeq([j \in 1..Len(counts) |->
+               LET cv == CountVals(e, counts[j]) IN [k \in 1..Len(cv) |-> SetAt(e, counts[j], cv[k])]])
+      bm == FlattenSeq([j \in 1..Len(ctrls) |->
+               LET bv == IF IsControl(RoleAt(lay, ctrls[j])) THEN ByteVals(e[ctrls[j]]) ELSE <<255, 0>>
+               IN [k \in 1..Len(bv) |-> SetAt(e, ctrls[j], <<bv[k]>>)]])
+      \* remove the chunk between two consecutive element starts; duplicate it
+      cut == [j \in 1..(IF Len(st) > 1 THEN Len(st) - 1 ELSE 0) |->
+                SubSeq(e, 1, st[j] - 1) \o SubSeq(e, st[j + 1], Len(e))]
+      dup == [j \in 1..(IF Len(st) > 1 THEN Len(st) - 1 ELSE 0) |->
+                SubSeq(e, 1, st[j + 1] - 1) \o SubSeq(e, st[j], Len(e))]
+  IN cm \o bm \o cut \o dup \o << e \o <<0>>, e \o e >>
+
+-----------------------------------------------------------------------------
 (* Generator option sets (C09).  Index 1 is the default (empty) set. *)
 OptNames == <<"AlwaysUsePointerReceivers", "PrivateDefinitions", "GenerateFieldTags",
               "GenerateUnsafeMethods", "SharedMemoryStrings">>
